@@ -316,6 +316,10 @@ func init() {
 
 	// ---- math/bits & misc pure helpers implemented by the compiler as intrinsics have Go bodies; nothing needed ----
 
+	ext("crypto/internal/boring/sig.StandardCrypto", nop)
+	ext("crypto/internal/boring/sig.BoringCrypto", nop)
+	ext("crypto/internal/boring/sig.FIPSOnly", nop)
+
 	// ---- os / runtime odds and ends ----
 	ext("runtime.Callers", func(fr *frame, args []value) value { return 0 })
 	ext("runtime.Caller", func(fr *frame, args []value) value { return tuple{uintptr(0), "", 0, false} })
